@@ -59,6 +59,10 @@ def handle (ts : List String) : String :=
     match run pMeasure rest with
     | some m => fmtList fmtEv (linearize m)
     | none => "bad-request"
+  | "wf" :: rest =>
+    match run pMeasure rest with
+    | some m => fmtBool (decide (MeasureWF m))
+    | none => "bad-request"
   | "int" :: rest =>
     match run (do let spec ← bool; let start ← nat; let evs ← list pEv; pure (spec, start, evs)) rest with
     | some (spec, start, evs) =>
